@@ -4,6 +4,11 @@ use ast_grep_core::language::Language;
 use ast_grep_core::matcher::{Matcher, MatcherExt};
 use ast_grep_core::{AstGrep, Doc, Node, NodeMatch};
 
+#[cfg(feature = "verif-hooks")]
+use crate::verif_hooks::SMap as HashMap;
+#[cfg(feature = "verif-hooks")]
+use crate::verif_hooks::VecSet as HashSet;
+#[cfg(not(feature = "verif-hooks"))]
 use std::collections::{HashMap, HashSet};
 
 pub struct ScanResult<'t, 'r, D: Doc, L: Language> {
@@ -339,5 +344,15 @@ language: Tsx",
     let unused = &scanned.matches[1];
     assert_eq!(unused.1.len(), 1);
     assert_eq!(unused.1[0].text(), "// ast-grep-ignore: test");
+  }
+}
+
+/// Verification hooks (cargo feature `verif-hooks`).
+#[cfg(feature = "verif-hooks")]
+#[doc(hidden)]
+pub mod verif_hooks {
+  /// `parse_suppression_set`: None = suppress every rule; Some(ids) = the listed ids
+  pub fn parse_suppression_set(text: &str) -> Option<Vec<String>> {
+    super::parse_suppression_set(text).map(|s| s.into_iter().collect())
   }
 }
